@@ -1,4 +1,5 @@
 import JetVerif.Props.C05
+import JetVerif.Props.C05P
 open JetVerif.Props.C05
 #print axioms truthy_bool
 #print axioms truthy_int
@@ -21,3 +22,10 @@ open JetVerif.Props.C05
 #print axioms range_empty_no_else
 #print axioms range_end_after_elements_skips_else
 #print axioms range_body_context
+#print axioms JetVerif.Props.C05P.statement_reads_one_derivation
+#print axioms JetVerif.Props.C05P.statement_after_peek
+#print axioms JetVerif.Props.C05P.body_reads_its_statements
+#print axioms JetVerif.Props.C05P.body_stops_at_else
+#print axioms JetVerif.Props.C05P.template_body_reads_its_statements
+#print axioms JetVerif.Props.C05P.if_chain_is_parsed_as_written
+#print axioms JetVerif.Props.C05P.range_is_parsed_as_written
